@@ -154,14 +154,24 @@ def check_qr(case):
     if not out.true("qr_qua:finite", np.all(np.isfinite(Qf)) and np.all(np.isfinite(Rf)), "non-finite factor"):
         return out
     an = ref.fro(A)
-    out.le("qr_qua:Q orthonormal", ref.unitarity_defect(Qf), C_ORTH * (m + n) * U_)
+    qdef = ref.unitarity_defect(Qf)
+    out.le("qr_qua:Q orthonormal", qdef, C_ORTH * (m + n) * U_)
+    if lr == k and np.isfinite(lcond):
+        # inside the known-finding class the loss follows u*cond(leading block) (KF-C06-2); a loss far beyond that law
+        # is a different defect and is reported (no exemption for this site)
+        out.le("qr_qua:Q orthonormal up to the u*cond law of the contracted factor", qdef,
+               C_ORTH * (m + n) * U_ * max(1.0, lcond), f"cond(leading block)={lcond:.2e}", tags=())
     below = 0.0
     for i in range(k):
         for j in range(min(i, n)):
             below = max(below, float(ref.modulus(Rf[i, j])))
     out.le("qr_qua:R upper triangular", below, C_TRI * (m + n) * U_ * an + 1e-300 * (an == 0))
-    out.le("qr_qua:A = QR", ref.fro(A - ref.qmm(Qf, Rf)), C_REC * (m + n) * U_ * an + 1e-300 * (an == 0),
+    rdef = ref.fro(A - ref.qmm(Qf, Rf))
+    out.le("qr_qua:A = QR", rdef, C_REC * (m + n) * U_ * an + 1e-300 * (an == 0),
            f"||A||={an:.3e} shape {m}x{n} leading rank {lr}/{k}")
+    if lr == k and np.isfinite(lcond):
+        out.le("qr_qua:A = QR up to the u*cond law of the contracted factor", rdef,
+               C_REC * (m + n) * U_ * an * max(1.0, lcond) + 1e-300 * (an == 0), f"cond(leading block)={lcond:.2e}", tags=())
     out.nontrivial = (m < n) or (lr < k) or m == 1
     out.sample = {"shape": [m, n], "kind": case["kind"], "leading_rank": lr}
     return out
